@@ -471,7 +471,7 @@ func (g *gen) field(thisField, thatField string, fieldType types.Type) (string, 
 		return fmt.Sprintf("%s(%s, %s)", g.GetFuncName(typ, typ), thisField, thatField), nil
 	case *types.Slice:
 		if b, ok := typ.Elem().(*types.Basic); ok && b.Kind() == types.Byte {
-			return fmt.Sprintf("%s.Equal(%s, %s)", g.bytesPkg(), thisField, thatField), nil
+			return fmt.Sprintf("((%[2]s == nil) == (%[3]s == nil) && %[1]s.Equal(%[2]s, %[3]s))", g.bytesPkg(), thisField, thatField), nil
 		}
 		return fmt.Sprintf("%s(%s, %s)", g.GetFuncName(typ, typ), thisField, thatField), nil
 	case *types.Map:
